@@ -168,7 +168,7 @@ PLAN = {
     "C08": {
         "streams": {
             "quick": [{"stream": "forge", "args": ["-n", "32", "-len", "10", "-workers", "16", "-rs", "20,3", "-pipes", "++minisign;++pgp;+age+minisign;gzip+pgp+pgp;zstandard+age+pgp;lz4+pgp+minisign", "-keys", "/verif/work/keys"], "timeout": 2400}],
-            "thorough": [{"stream": "forge", "args": ["-n", "96", "-len", "9", "-workers", "16", "-rs", "20,3,1", "-allcuts", "-pipes", ";".join("%s+%s+%s" % (c, e, sg) for c in ["", "gzip", "zstandard"] for e in ["", "age", "pgp"] for sg in ["minisign", "pgp"]), "-keys", "/verif/work/keys"], "timeout": 14000}],
+            "thorough": [{"stream": "forge", "args": ["-n", "36", "-len", "9", "-workers", "16", "-rs", "20,3,1", "-allcuts", "-pipes", ";".join("%s+%s+%s" % (c, e, sg) for c in ["", "gzip", "zstandard"] for e in ["", "age", "pgp"] for sg in ["minisign", "pgp"]), "-keys", "/verif/work/keys"], "timeout": 14000}],
         },
         "generated": ["Stfs/Gen/Verify.lean (pkg/signature/verify.go: VerifyHeader skeleton, per-format returns of VerifyString; every caller of recovery.Index and its verifier callback; Fetch/Query verification sites and Fetch's raw-copy condition)"],
         "trusted_base": BASE_TRUST,
